@@ -157,7 +157,11 @@ func (d *delit) candidate(e ast.Expr) (*ast.FuncLit, bool) {
 		if len(fl.Body.List) == 0 {
 			return nil, false
 		}
-		if _, isRet := fl.Body.List[len(fl.Body.List)-1].(*ast.ReturnStmt); !isRet {
+		// (the compiler has checked that the body ends in a terminating statement — a return, or a switch/if whose
+		// branches all return: control cannot fall out of the lowered form either)
+		switch fl.Body.List[len(fl.Body.List)-1].(type) {
+		case *ast.ReturnStmt, *ast.SwitchStmt, *ast.TypeSwitchStmt, *ast.IfStmt, *ast.BlockStmt, *ast.SelectStmt:
+		default:
 			return nil, false
 		}
 	}
